@@ -18,12 +18,12 @@ ASSUMPTIONS = ['cooperative scheduling only']
 
 METHODS = ('GET', 'POST', 'OPTIONS', 'PUT', 'DELETE', 'HEAD')
 EIOS = (None, '3', '4', '5', '4&EIO=4')
-TRANSPORTS = (None, 'polling', 'websocket', 'other')
+TRANSPORTS = (None, 'polling', 'websocket', 'other', 'poll', 'socket')
 SIDKINDS = ('absent', 'live-polling', 'live-upgraded', 'mid-upgrade', 'closed-not-reaped', 'unknown', 'rejected')
 UPHDRS = (None, {'Upgrade': 'websocket', 'Connection': 'Upgrade'}, {'Upgrade': 'WebSocket', 'Connection': 'keep-alive, Upgrade'},
           {'Upgrade': 'websocket'})
 JS = (None, '0', 'x', '17')
-CFGS = (None, ['polling'], ['websocket'])
+CFGS = (None, ['polling'], ['websocket'], 'polling', 'websocket')     # (a single transport may be given by name)
 
 
 def _build(fl, cfg, sk, bystander=True):
@@ -33,7 +33,7 @@ def _build(fl, cfg, sk, bystander=True):
         kw['transports'] = cfg
     sut = mk(fl, async_handlers=False, **kw)
     st = {'sut': sut, 'sid': None, 'peer': None, 'by': None, 'by_peer': None}
-    first = 'websocket' if cfg == ['websocket'] else 'polling'
+    first = 'websocket' if cfg in (['websocket'], 'websocket') else 'polling'
     if bystander:
         b = sut.open(first)
         sut.settle()
@@ -65,7 +65,7 @@ def _build(fl, cfg, sk, bystander=True):
         sut.settle()
     elif sk == 'live-upgraded':
         if first == 'polling':
-            if cfg == ['polling']:
+            if cfg in (['polling'], 'polling'):
                 return None
             u = sut.ws_upgrade(sid)
             sut.settle()
@@ -144,7 +144,7 @@ def _probe(st, sk):
 
 def _reasons(method, eio, tr, sk, up, j, cfg):
     """Refusal reasons per the statement. Returns (must_refuse, unconstrained)."""
-    allowed = cfg or ['polling', 'websocket']
+    allowed = [cfg] if isinstance(cfg, str) else (cfg or ['polling', 'websocket'])
     eff_tr = tr if tr is not None else 'polling'
     r400 = []
     if eff_tr not in allowed:
